@@ -615,6 +615,10 @@ pub fn deep_attempt_scope(rep: &mut Report, tag: &str, thorough: bool) {
                 let got = find_all_deadline(&re, e, &hay, 180);
                 if got != want {
                     rep.violation(&format!("impl-vs-oracle:{}", tag), format!("{}: expected [{}], got [{}]", e.name(), want, if got.len() > 300 { &got[..300] } else { &got }), label.clone());
+                    if got.starts_with("timeout") {
+                        // the abandoned thread keeps a core busy: one such report is enough
+                        return;
+                    }
                 }
             }
         }
@@ -649,6 +653,9 @@ pub fn deep_attempt_scope(rep: &mut Report, tag: &str, thorough: bool) {
                         format!("{}: expected [{}] (only the final b matches, through the last alternative; no other group participates), got [{}]", e.name(), want, if got.len() > 200 { &got[..200] } else { &got }),
                         label.clone(),
                     );
+                    if got.starts_with("timeout") {
+                        return;
+                    }
                 }
             }
         }
